@@ -2,5 +2,5 @@
 # import the two changes of one seeding round for one property, confirm them, evaluate them against the property's check: tools/seed_round.sh c07 4
 p=$1; r=$2; P=$(echo $p | tr a-z A-Z); cd "$(dirname "$0")/.."
 python3 tools/seed_import.py $p $P $r 2>&1 | grep -E "confirmed|missing|FAIL|not" 
-case $r in 2) n="c d";; 3) n="e f";; 4) n="g h";; 5) n="i j";; 6) n="k l";; *) n="a b";; esac
+case $r in 2) n="c d";; 3) n="e f";; 4) n="g h";; 5) n="i j";; 6) n="k l";; 7) n="m n";; *) n="a b";; esac
 for x in $n; do python3 tools/seed_eval.py ${p}_$x $P 2>&1 | grep -E "^C[0-9]+ exit|no-failing|does not apply" | tr '\n' ' '; echo " <- ${p}_$x"; done
